@@ -546,6 +546,8 @@ package url
 //@            && result1 == nil && !specEndsInANumber(hostASCII(p, input))) ==> result0 == hostASCII(p, input)   [C01,C09 decode-then-toascii-then-ipv4-test]
 //@   ensures (!isNotSpecial && p.opts.preParseHostFunc == nil && p.opts.postParseHostFunc == nil && !p.opts.laxHostParsing && input != "" && input[0] != '['
 //@            && result1 == nil && !specEndsInANumber(hostASCII(p, input))) ==> (forall k int :: 0 <= k && k < len(result0) ==> !specForbiddenDomain(result0[k]))   [C01,C09 no-forbidden-domain-code-point]
+//@   ensures (!isNotSpecial && p.opts.preParseHostFunc == nil && p.opts.postParseHostFunc != nil && !p.opts.laxHostParsing && input != "" && input[0] != '['
+//@            && result1 == nil && !specEndsInANumber(hostASCII(p, input))) ==> result0 == hookResult(p.opts.postParseHostFunc, u, hostASCII(p, input))   [C01,C09 post-parse-hook-receives-the-ascii-domain]
 //@   ensures (!isNotSpecial && p.opts.preParseHostFunc == nil && p.opts.postParseHostFunc == nil && !p.opts.laxHostParsing && p.opts.encodingOverride == nil && input != ""
 //@            && input[0] != '[' && result1 == nil && !specEndsInANumber(specHostASCII(input))) ==> result0 == specHostASCII(input)   [C01,C09 domain-host-as-a-function-of-the-text]
 //@   ensures (isNotSpecial && p.opts.preParseHostFunc == nil && input != "" && input[0] != '[') ==> !u.isIPv4 || old(u.isIPv4)   [C01,C07 non-special-hosts-never-reinterpreted]
